@@ -549,6 +549,8 @@ pub struct IoSnap {
     pub read_waiting: bool,
     pub write_waiting: bool,
     pub write_after_shutdown: u32,
+    /// bytes a buffering transport accepted but never flushed
+    pub staged: usize,
 }
 
 #[derive(Debug, Clone)]
@@ -1044,6 +1046,7 @@ async fn drive(sc: &Scenario, chooser: Rc<RefCell<Chooser>>) -> Exec {
             read_waiting: i.read_waker.is_some(),
             write_waiting: i.write_waker.is_some(),
             write_after_shutdown: i.write_after_shutdown,
+            staged: i.staged.len(),
         }
     };
     let gates_total = env.gates.borrow().len();
